@@ -29,6 +29,7 @@ def plans():
     d, p = c18_save.registered_formats()
     out.append(("SaveProtocol", "all registered formats", _strip(c18_save.cfg(d, p))))
     out.append(("ProjectRuns", "runs<=3,remove<=1", _strip(c18_project.cfg(["a", "a_run_b", "a_run"], [], 3, 0, 1, True))))
+    out.append(("ProjectRuns", "partial runs", _strip(c18_project.cfg(["a", "a_run_b"], [], 4, 0, 0, True, max_fails=2))))
     out.append(("Optimizer", "life-cycle", _strip(c15.cfg([1, 2], 4, 7, c15.KINDS, ["TrustRegionReflection"], [True], [True, False], "InvalidSingles", swap=True,
                                                           spec="Spec", invs=[], props=[]))))
     return out
